@@ -19,7 +19,10 @@ for pid in ALL:
         "engine": "+".join(e for e, k in (("verus", "verus"), ("kani", "kani"), ("native-contracts", "rac")) if c.get(k)),
         "level_claimed": {"category": c["level"], "text": c.get("level_text", ""), "design_ref": "DESIGN.md section 4, %s" % pid},
         "level_note": c.get("level_note", "trusted base: " + "; ".join(props.TRUSTED_BASE)),
-        "technique": c.get("technique", "contract-based deductive verification"),
+        "technique": c.get("technique", "contract-based deductive verification: Verus contracts on the real functions (extracted on every run)"
+                           + ("; Kani Hoare triples around the real expansion (complete per program, programs enumerated)" if c.get("kani") else "")
+                           + ("; native executable contracts / sweeps (bounded stand-in)" if (c.get("rac") or c.get("native")) else "")
+                           + ({"C08": "; the run-time clauses by native thread probes (exploration)", "C18": "; the run-time clauses by native panic injection (fault enumeration)"}.get(pid, ""))),
     })
 na = [{"property_id": p, "reason": r} for p, r in props.NOT_APPLICABLE.items() if p not in props.PROPS]
 m = {
@@ -33,7 +36,7 @@ m = {
         {"name": "R", "path": "rac/ + lib/rengine.py", "serves_properties": [p for p in ALL if props.PROPS.get(p, {}).get("rac")], "kind_free_text": "native executable contracts over exhaustive finite domains (bounded stand-in, replay)"},
     ],
     "checks": checks,
-    "notes": "fix: commits in /repo (genuine defects, see KNOWN_FINDINGS.txt): d526310 (C05), 57c5e60 (C15), b146182 (C16), 0941b1e (C01), f08b30f (C14). exit 2 of a check = undecided (lost anchor / tool limit), never an alarm.",
+    "notes": "fix: commits in /repo (genuine defects, see KNOWN_FINDINGS.txt): d526310 (C05), 57c5e60 (C15), b146182 (C16), 0941b1e (C01), f08b30f (C14), deb1e7c (C15/C14). exit 2 of a check = undecided (lost anchor / tool limit), never an alarm.",
     "not_applicable": na,
 }
 json.dump(m, open(os.path.join(ROOT, "MANIFEST.json"), "w"), indent=1)
